@@ -117,3 +117,25 @@ func H_C05(t, w, flags int) {
 	checkLayout(buf, &m, 0, ret)
 	vReach("accepted")
 }
+
+// H_C05_chunk: the same layout facts on an object that was resumed once at a
+// symbolic cut (the statement's "under any chunk schedule": every schedule
+// reduces to this by the resumption lemma of C01).
+func H_C05_chunk(t, w int) {
+	buf := vTpl(t, w)
+	var m PSIPMsg
+	m.Init(nil, nil, nil)
+	cut := 1 + vChoice(len(buf)-1)
+	ret, e := ParseSIPMsg(buf[:cut], 0, &m, SIPMsgSkipBodyF)
+	if e == ErrHdrMoreBytes {
+		ret, e = ParseSIPMsg(buf, ret, &m, SIPMsgSkipBodyF)
+	}
+	vObs("ret", ret)
+	vObs("e", int(e))
+	if e != 0 {
+		vReach("not-accepted")
+		return
+	}
+	checkLayout(buf[:len(m.Buf)], &m, 0, ret)
+	vReach("accepted")
+}
